@@ -193,15 +193,18 @@ theorem sound_after (h : NoLimits env) (ag : Agree env ie) {n : Nat} (lk : LockO
     (hi : interp ke ie (.after n) (absS c) = .ok (a', cs)) : Post env ke ctx (.after n) .B false c a' := by
   simp only [interp, evaluateAfter] at hi
   split at hi
-  · rename_i h1
-    split at hi
-    · rename_i h2
-      simp at hi
-      have hl := after_ok ag h1 h2
-      exact ⟨.sat, c, hi.1.symm, fun rest alt ops =>
-        ⟨lockVal n, ops + 1, by simp [frag, cltv_ops h lk hl], Res.ofLock lk⟩⟩
-    · simp at hi
   · simp at hi
+  · rename_i h0
+    split at hi
+    · rename_i h1
+      split at hi
+      · rename_i h2
+        simp at hi
+        have hl := after_ok ag (by simpa using h0) h1 h2
+        exact ⟨.sat, c, hi.1.symm, fun rest alt ops =>
+          ⟨lockVal n, ops + 1, by simp [frag, cltv_ops h lk hl], Res.ofLock lk⟩⟩
+      · simp at hi
+    · simp at hi
 
 theorem sound_older (h : NoLimits env) (ag : Agree env ie) {n : Nat} (lk : LockOk env n)
     {c : List Bytes} {a' : AStack} {cs : List Constraint}
